@@ -39,6 +39,12 @@ type shape struct {
 	// replayRace: the handler is subscribed with SubscribeWithReplay(Sequential()) over a
 	// store that already holds two events, while another task publishes
 	replayRace bool
+	// cancelWaiter: every publisher publishes with a cancellable context of its own, and
+	// the handler, while it processes an event of publisher p, cancels the context of
+	// publisher p+1 (between two scheduling points): a publisher may be waiting behind the
+	// running invocation when its context is cancelled. Whether such an event is then
+	// still delivered is not judged (0 or 1 times); overlap, order and deadlock are.
+	cancelWaiter bool
 }
 
 type inst struct {
@@ -65,9 +71,18 @@ func (in *inst) Body() {
 		}
 		t.PubCtx(bus, hctx, id)
 	}
+	ctxs := make([]context.Context, len(s.pubs))
+	cancels := make([]context.CancelFunc, len(s.pubs))
+	for t := range s.pubs {
+		ctxs[t], cancels[t] = context.WithCancel(context.Background())
+	}
 	mk := func(hid int) func(context.Context, int) {
 		return func(hctx context.Context, id int) {
 			in.rec.Add("enter", hid, id, "")
+			if s.cancelWaiter && hid == 0 {
+				vrt.Point()
+				cancels[(id/100)%len(cancels)]()
+			}
 			if s.gate && hid == 0 && !gated {
 				gated = true
 				vrt.Recv(gate)
@@ -105,7 +120,11 @@ func (in *inst) Body() {
 			for i := 0; i < n; i++ {
 				id := 100*(t+1) + i
 				in.rec.Add("call", id, 0, "")
-				A.Pub(bus, id)
+				if s.cancelWaiter {
+					A.PubCtx(bus, ctxs[t], id)
+				} else {
+					A.Pub(bus, id)
+				}
 				in.rec.Add("ret", id, 0, "")
 			}
 			if s.gate {
@@ -219,6 +238,9 @@ func (in *inst) Check(res *vrt.Result) []vrt.Violation {
 		for t, n := range in.s.pubs {
 			for i := 0; i < n; i++ {
 				id := 100*(t+1) + i
+				if in.s.cancelWaiter && cnt[id] == 0 {
+					continue // its context may have been cancelled before it was dispatched
+				}
 				if cnt[id] != 1 {
 					bad("delivery-count", fmt.Sprintf("%s sequential handler received an event %d times", kindOf(in.s), cnt[id]), fmt.Sprintf("handler %d event %d", hid, id))
 				}
@@ -273,6 +295,9 @@ func shapes(thorough bool) []shape {
 		{name: "async/cancelled-then-live", async: true, cancelFirst: true, pubs: []int{2}},
 		{name: "async/cancelled-then-live-2publishers", async: true, cancelFirst: true, pubs: []int{1, 1}},
 		{name: "sync/cancelled-then-live", cancelFirst: true, pubs: []int{2}},
+		{name: "sync/3publishers-context-cancelled-while-waiting", cancelWaiter: true, pubs: []int{1, 1, 1}},
+		{name: "sync-ctx/2x2-context-cancelled-while-waiting", ctx: true, cancelWaiter: true, pubs: []int{2, 2}},
+		{name: "async/3publishers-context-cancelled-while-queued", async: true, cancelWaiter: true, pubs: []int{1, 1, 1}},
 		{name: "replay-race/sequential-subscribe-with-replay", replayRace: true, pubs: []int{0}},
 		{name: "replay-race/async-sequential-subscribe-with-replay", replayRace: true, async: true, pubs: []int{0}},
 		{name: "async-ctx/self-republish", async: true, ctx: true, republish: 1, pubs: []int{1}},
